@@ -284,6 +284,18 @@ pub fn generate(prop: &str, thorough: bool, rng: &mut Rng) -> Case {
                     let n_ops = 3 + rng.below(3);
                     clients.push(gen_ops(rng, n_ops, keys, &mix, &mut vc));
                 }
+                // a tenth of the runs: one key is contended by fetch rounds that get closed and reopened (a fetch with a
+                // slow origin, an explicit insert that closes its round, the key leaving again, a new fetch round)
+                if !c17 && rng.chance(1, 10) {
+                    let k = rng.below(keys as usize) as u64;
+                    clients.truncate(2);
+                    clients.insert(0, vec![Op::Fetch { k, ver: vc.next(), w: 1, yields: 1 + rng.below(4) as u8, fail: false, hold: false }, Op::Get { k, hold: false }]);
+                    let mut b = vec![Op::Yield { n: 1 + rng.below(2) as u8 }, Op::Insert { k, ver: vc.next(), w: 1, loc: 0, hold: false }];
+                    b.push(if rng.chance(2, 3) { Op::Remove { k } } else { Op::EvictAll });
+                    b.push(Op::Fetch { k, ver: vc.next(), w: 1, yields: rng.below(3) as u8, fail: false, hold: false });
+                    b.push(Op::Get { k, hold: false });
+                    clients.insert(1, b);
+                }
             }
         }
         "C16" => {
